@@ -686,7 +686,13 @@ def rule_p2(repo, res):
                     if isinstance(t, ast.Attribute) and t.attr == items:
                         n += 1
                         v = node.value
-                        ok = isinstance(v, (ast.List, ast.ListComp)) or (isinstance(v, ast.Call) and norm(v.func) in ("list", "sorted"))
+                        fresh_ = lambda x: isinstance(x, (ast.List, ast.ListComp)) or (isinstance(x, ast.Call) and norm(x.func) in ("list", "sorted"))
+                        ok = fresh_(v)
+                        if not ok and isinstance(v, ast.Name):
+                            # a local that is only ever bound to fresh lists in this method (kept = [...]; self.__items = kept)
+                            defs_ = [a.value for a in ast.walk(fn) if isinstance(a, ast.Assign) and any(isinstance(t_, ast.Name) and t_.id == v.id for t_ in a.targets)]
+                            params_ = {a.arg for a in fn.args.args}
+                            ok = bool(defs_) and all(fresh_(d_) for d_ in defs_) and v.id not in params_
                         res.oblige("P2", f"{CONTAINER}.{name} `{norm(node, 70)}` assigns a fresh list", ok=ok)
                         if not ok:
                             res.add(Finding("P2", f"{CONTAINER}.{name}", norm(node, 70),
